@@ -100,7 +100,8 @@ inductive Entries where
   | cons (k v : GoVal) (es : Entries)
 inductive Fields where
   | nil
-  | cons (name : Bytes) (isTimeTy : Bool) (tags : List (Bytes × Bytes)) (v : GoVal) (fs : Fields)
+  | cons (name : Bytes) (exported : Bool) (isTimeTy : Bool) (tags : List (Bytes × Bytes)) (v : GoVal) (fs : Fields)
+      -- exported = (PkgPath == ""); isTimeTy = (field type == time.Time); tags = Tag.Lookup results
 end
 
 instance : Inhabited GoVal := ⟨.bool false⟩
@@ -192,7 +193,7 @@ def GoVals.allZero : GoVals → Bool
   | .cons v vs => v.isZero && vs.allZero
 def Fields.allZero : Fields → Bool
   | .nil => true
-  | .cons _ _ _ v fs => v.isZero && fs.allZero
+  | .cons _ _ _ _ v fs => v.isZero && fs.allZero
 end
 
 /-- `reflect.Value.Len` for slice / array / map / string (0 otherwise; callers test the kind first) -/
